@@ -136,6 +136,14 @@ def _check_runtime_init(target, value):
     # to objects that are initialized from runtime values
     if isinstance(value, TypeQualifier) and issubclass(target.type, BitVector):
         target.type(_decay(value))
+    elif isinstance(value, (list, tuple)) and issubclass(target.type, Array):
+        # element wise initialization of arrays
+        elemtype = target.type._elemtype_
+
+        if issubclass(elemtype, BitVector):
+            for elem in value:
+                if isinstance(elem, TypeQualifier):
+                    elemtype(_decay(elem))
 
 
 def _decay(val):
